@@ -1,7 +1,7 @@
-\* C18: Project.tla as the pinned tree behaves, all four (resolver layout x exec layout) combinations;
-\* the projected state graph (-workers 1) for replay into the real generator (quick tier).
-\* 2 resolver fields (Query.f1, T.g) x 2 schema files x 3 edit records x 2 helper tokens x 5 import
-\* tokens x both resolver layouts x histories <= 4.  Measured: see notes/C19.md.
+\* C18: Project.tla as the pinned tree behaves, ALL FOUR (resolver layout x exec layout) combinations; labelled
+\* edges for the multi-process replay. 2 resolver fields, 2 edit records, helper {h}, import {alias}, histories <= 4
+\* (so that the state after a Generate at depth 3 still has its own Generate edge = the idempotence prediction).
+\* Measured: 4 528 states, 13 846 edges (1 328 Generate edges), 7 s.
 INIT Init
 NEXT Next
 CONSTANTS
